@@ -215,7 +215,8 @@ def loader_targets():
                     return [("returns_the_batch_unchanged", False)]
                 xb, yb = v
                 cl = []
-            cl += [("features_are_the_idx_th_block", xb == z3.SubSeq(X, idx * b, b)), ("labels_are_the_same_block", yb == z3.SubSeq(y, idx * b, b)),
+            cl += [("random_access_leaves_the_iteration_cursor_alone", s.attrs(ctx["me"])["step"] == z3.Int("step0")),
+                   ("features_are_the_idx_th_block", xb == z3.SubSeq(X, idx * b, b)), ("labels_are_the_same_block", yb == z3.SubSeq(y, idx * b, b)),
                    ("batch_has_exactly_batch_size_samples", z3.And(z3.Length(xb) == b, z3.Length(yb) == b)),
                    ("block_lies_inside_the_data", idx * b + b <= ctx["n"])]
             return cl
@@ -295,6 +296,31 @@ def runtime_part(run, tier, seed):
                         order = np.concatenate([np.asarray(te[1]).reshape(-1)] + ([np.asarray(va[1]).reshape(-1)] if va is not None else []) + [np.asarray(tr[1]).reshape(-1)])
                         if order.tolist() != list(range(n)):
                             run.violation(MOD + "split_dataset.order_preserved_without_shuffle", "order %s" % order.tolist(), key=key, replay={})
+    # floor rule on a fine grid: every fraction k/100 for every n <= 200 (products like 0.29 * 100 = 28.999999999999996 lie just below an integer: the rule floors the
+    # double product, it does not round it first), fractions within 1e-9 of 0 and 1, and the same for the validation fraction of the remainder; sizes only
+    grid = [k / 100 for k in range(101)] + [1e-9, 1 - 1e-9, 0.5 - 1e-12, 1 / 3, 2 / 3]
+    for n in range(0, 201 if tier == "quick" else 401):
+        X = np.zeros((n, 1), dtype=np.float32)
+        y = np.arange(n, dtype=np.float32)
+        for tsf in grid:
+            for vsf in ([None] if n not in (50, 100, 125, 200) else [None] + grid):
+                if vsf is not None and tsf not in (0.0, 0.2, 0.29):
+                    continue
+                run.rt(("split-size", n, tsf, vsf))
+                try:
+                    tr, te, va = data.split_dataset(X, y, tsf, vsf, False)
+                except Exception as e:
+                    run.violation(MOD + "split_dataset.completes", "split_dataset raised %s: %s" % (type(e).__name__, e), key={"n": n, "test_split": tsf, "val_split": vsf}, replay={"n": n, "test_split": tsf, "val_split": vsf})
+                    continue
+                split = int(np.floor(tsf * n))
+                vsz = 0 if vsf is None else int(np.floor(vsf * (n - split)))
+                got = (len(te[0]), 0 if va is None else len(va[0]), len(tr[0]))
+                if got != (split, vsz, n - split - vsz):
+                    run.violation(MOD + "split_dataset.floor_rule_sizes", "n=%d test_split=%r val_split=%r: (test, val, train) sizes %s, the floor rule gives %s" % (n, tsf, vsf, got, (split, vsz, n - split - vsz)),
+                                  key={"n": n, "test_split": tsf, "val_split": vsf}, replay={"n": n, "test_split": tsf, "val_split": vsf, "sizes": got})
+    for n in range(0, nmax + 1):
+        X = np.arange(n * 2, dtype=np.float32).reshape(n, 2) + 100
+        y = np.arange(n, dtype=np.float32)
         # DataLoader
         for b in range(1, nmax + 2):
             for with_t in (False, True, "an object that is falsy (__len__ == 0)", "an object that is falsy (__bool__)"):
@@ -316,6 +342,16 @@ def runtime_part(run, tier, seed):
                     for _bt in dl:              # a loop left early: the loader is partially consumed ...
                         break
                     third = [bt for bt in dl]   # ... and the next iteration still starts from the first batch
+                    # random access during a pass (looking a batch up by index between two steps of the loop) does not disturb the pass
+                    for look in ("first", "last", "current"):
+                        seen_ = []
+                        for i_, bt in enumerate(itertools.islice(dl, 3 * L + 3)):
+                            seen_.append(bt)
+                            if L:
+                                dl[{"first": 0, "last": L - 1, "current": min(i_, L - 1)}[look]]
+                        if len(seen_) != L or any(not (np.array_equal(a_[0], b_[0]) and np.array_equal(a_[1], b_[1])) for a_, b_ in zip(seen_, first)):
+                            third = third + [None]      # reported below as a wrong number of batches
+                            break
                 except Exception as e:
                     run.violation(MOD + "DataLoader.iteration_completes", "iteration raised %s: %s" % (type(e).__name__, e), key={**key, "exception": type(e).__name__}, replay=key)
                     continue
